@@ -14,31 +14,31 @@ import (
 )
 
 type Sess struct {
-	g        *Gen
-	mode     string // "int" | "bv"
-	sortDecl []string
-	sortSeen map[string]bool
-	funDecl  []string
-	funSeen  map[string]bool
-	axioms   []string // global axioms (after funDecl)
-	lines    []string // ordered declarations + assertions
-	nfresh   int
-	structs  map[string]*types.Struct // sort name -> struct
-	structT  map[string]types.Type
-	typeIDs  map[string]int
-	notes    []string // unsupported / havocked notes
-	notesSet map[string]bool
-	heapSort map[string]string // heap key -> sort of the array
-	specBusy map[string]bool
-	lemmaOK  map[string]bool
-	usedSpec map[string]bool
-	finalized bool
+	g            *Gen
+	mode         string // "int" | "bv"
+	sortDecl     []string
+	sortSeen     map[string]bool
+	funDecl      []string
+	funSeen      map[string]bool
+	axioms       []string // global axioms (after funDecl)
+	lines        []string // ordered declarations + assertions
+	nfresh       int
+	structs      map[string]*types.Struct // sort name -> struct
+	structT      map[string]types.Type
+	typeIDs      map[string]int
+	notes        []string // unsupported / havocked notes
+	notesSet     map[string]bool
+	heapSort     map[string]string // heap key -> sort of the array
+	specBusy     map[string]bool
+	lemmaOK      map[string]bool
+	usedSpec     map[string]bool
+	finalized    bool
 	provingLemma *Axiom
-	usedAxioms []string
-	heapOwner map[string]string
-	axiomErrs []string
-	nq int
-	heapElemT map[string]types.Type
+	usedAxioms   []string
+	heapOwner    map[string]string
+	axiomErrs    []string
+	nq           int
+	heapElemT    map[string]types.Type
 }
 
 func NewSess(g *Gen, mode string) *Sess {
@@ -243,8 +243,14 @@ func (s *Sess) mapSort(k, v string) string {
 }
 
 // seq helpers (elem = element sort)
-func (s *Sess) seqLen(elem, x string) string { s.seqSort(elem); return "(len_" + sortID(elem) + " " + x + ")" }
-func (s *Sess) seqArr(elem, x string) string { s.seqSort(elem); return "(arr_" + sortID(elem) + " " + x + ")" }
+func (s *Sess) seqLen(elem, x string) string {
+	s.seqSort(elem)
+	return "(len_" + sortID(elem) + " " + x + ")"
+}
+func (s *Sess) seqArr(elem, x string) string {
+	s.seqSort(elem)
+	return "(arr_" + sortID(elem) + " " + x + ")"
+}
 func (s *Sess) mkSeq(elem, l, a string) string {
 	s.seqSort(elem)
 	return "(mkseq_" + sortID(elem) + " " + l + " " + a + ")"
